@@ -369,7 +369,8 @@ type history struct {
 	deliver []int
 	byHash  map[common.Hash]int
 	maxH    uint64
-	noFork  bool                 // scripted history: no sync sessions
+	noFork  bool                 // scripted history: no random sync sessions
+	script  map[int][2]int       // scripted sync sessions: position in deliver -> (header, tip)
 	txu     []*types.Transaction // transaction universe of this history; Coq id = index + 1
 	txIdx   map[common.Hash]int
 }
@@ -578,6 +579,34 @@ func (w *world) genCacheHistory(hi int) *history {
 		h.deliver = append(h.deliver, m)
 	}
 	h.deliver = append(h.deliver, l) // L again: evicted by now
+	h.number(w)
+	return h
+}
+
+// scripted history for the fork switch: local chain g-x (QN 5); the peer's chain g-f1-f2-f3 (QN 1,2,6);
+// c (child of f1, QN 4) arrived by broadcast before and waits as an orphan. The switch removes x, adds
+// f1, whose callback pulls c in; f2 is lighter than c and refused; the switch stops with head c (QN 4).
+func (w *world) genForkOrphanHistory(hi int) *history {
+	h := &history{byHash: map[common.Hash]int{}, txIdx: map[common.Hash]int{}, noFork: true, script: map[int][2]int{}}
+	h.blocks = append(h.blocks, &blk{hdr: w.genesis, parent: -1})
+	add := func(p int, qn uint64, pv int64) int {
+		ph := h.blocks[p].hdr
+		b := w.build(ph, ph.Height+1, qn, pv, byte(len(h.blocks)), nil)
+		raw, _ := types.MarshalBlock(b)
+		h.byHash[b.Header.Hash] = len(h.blocks)
+		h.blocks = append(h.blocks, &blk{hdr: b.Header, raw: raw, parent: p})
+		if b.Header.Height > h.maxH {
+			h.maxH = b.Header.Height
+		}
+		return len(h.blocks) - 1
+	}
+	x := add(0, 5, 1)
+	f1 := add(0, 1, 1)
+	f2 := add(f1, 1, 1)
+	f3 := add(f2, 4, 1)
+	c := add(f1, 3, 1)
+	h.deliver = []int{c, x}
+	h.script[2] = [2]int{0, f3}
 	h.number(w)
 	return h
 }
@@ -1185,7 +1214,11 @@ func (c *ctx) runHistory(r *hx.Rng, tier string, hi int) (string, interface{}) {
 		core.VerifBCForkDestroy()
 		auxOp("Fd")
 	}
-	for _, bi := range h.deliver {
+	for di, bi := range h.deliver {
+		if sc, ok := h.script[di]; ok && core.VerifBCForkNew(h.blocks[sc[0]].hdr.Hash) {
+			sess = &session{header: sc[0], tip: sc[1]}
+			auxOp(fmt.Sprintf("Fn %d", sc[0]))
+		}
 		if sess == nil && !h.noFork && r.Intn(5) == 0 {
 			// header: the head or up to three blocks below it; tip: a universe block above the header
 			top := h.byHash[ch.TopBlock().Hash]
@@ -1234,6 +1267,11 @@ func (c *ctx) runHistory(r *hx.Rng, tier string, hi int) (string, interface{}) {
 		deliverOne(bi)
 	}
 	if sess != nil {
+		finishSession()
+	}
+	if sc, ok := h.script[len(h.deliver)]; ok && core.VerifBCForkNew(h.blocks[sc[0]].hdr.Hash) {
+		sess = &session{header: sc[0], tip: sc[1]}
+		auxOp(fmt.Sprintf("Fn %d", sc[0]))
 		finishSession()
 	}
 	w.rec.on = false
@@ -1478,6 +1516,10 @@ func main() {
 		h := w.genCacheHistory(100000)
 		c := &ctx{w: w, h: h, res: res}
 		term, js := c.runHistory(rng.Fork(), a.Tier, 100000)
+		cs.Add(term, js)
+		h = w.genForkOrphanHistory(100001)
+		c = &ctx{w: w, h: h, res: res}
+		term, js = c.runHistory(rng.Fork(), a.Tier, 100001)
 		cs.Add(term, js)
 	}
 	for hi := 0; hi < nh; hi++ {
